@@ -1813,7 +1813,7 @@ impl C09 {
                 eintr: if t.chance(1, 4) { 50 } else { 0 },
                 fail_at: None,
                 // "one buffer" is at least a common BufReader capacity
-                bound: Some(l0 + limit + 2 * (chunk_max as u64).max(65536)),
+                bound: Some(l0 + limit + (chunk_max as u64).max(65536)),
             }
         };
         let max = l0 + 3 * limit;
@@ -1860,7 +1860,7 @@ impl C09 {
                 "read-bound",
                 key,
                 format!(
-                    "hostile {:?} at {:?} of a {}: parser pulled {} bytes; bound is L0 {} + limit {} + 2 x max(chunk {}, 64 KiB) = {}",
+                    "hostile {:?} at {:?} of a {}: parser pulled {} bytes; bound is L0 {} + limit {} + max(chunk {}, 64 KiB) = {}",
                     kind, pos, doc.kind(), p, l0, limit, rcfg.chunk_max, rcfg.bound.unwrap()
                 ),
             ));
@@ -1954,7 +1954,7 @@ impl C09 {
                 chunk_max,
                 eintr: if t.chance(1, 4) { 50 } else { 0 },
                 fail_at: None,
-                bound: Some(e0 as u64 + limit + 2 * (chunk_max as u64).max(65536)),
+                bound: Some(e0 as u64 + limit + (chunk_max as u64).max(65536)),
             }
         };
         let sections = vec![
@@ -1999,7 +1999,7 @@ impl C09 {
                 "read-bound",
                 key,
                 format!(
-                    "a {} element starting at byte {} with {} bytes of white space in its start tag and endless {:?} as content: parser pulled {} bytes; bound is element start {} + limit {} + 2 x max(chunk {}, 64 KiB) = {}",
+                    "a {} element starting at byte {} with {} bytes of white space in its start tag and endless {:?} as content: parser pulled {} bytes; bound is element start {} + limit {} + max(chunk {}, 64 KiB) = {}",
                     doc.kind(), e0, s1, kind, p, e0, limit, rcfg.chunk_max, rcfg.bound.unwrap()
                 ),
             ));
@@ -2046,7 +2046,7 @@ impl C09 {
         let bytes = Arc::new(std::mem::take(&mut w.accepted));
         let l0 = hostile_prefix("snapshot", &bytes, Pos::AfterRootStart).map(|p| p.len() as u64).unwrap_or(0);
         let chunk_max = 1usize << 16;
-        let rcfg = ReadCfg { mode: 0, chunk_max, eintr: 0, fail_at: None, bound: if which == 1 { Some(l0 + MAX_FILE_SIZE + 2 * 65536) } else { None } };
+        let rcfg = ReadCfg { mode: 0, chunk_max, eintr: 0, fail_at: None, bound: if which == 1 { Some(l0 + MAX_FILE_SIZE + 65536) } else { None } };
         let mut r = reader(ctx, &bytes, rcfg);
         let mut rec = Recorder { ctx: ctx.clone(), recs: Vec::new(), bulk: true };
         let res = guarded("process-large", || {
@@ -2348,7 +2348,7 @@ impl Scenario for C09 {
 
     fn assumptions(&self) -> Vec<&'static str> {
         vec![
-            "read bound checked: pulled <= L0 + limit + 2 x max(chunk, 64 KiB), limit = the constant in force at the hostile position (1 MB root/notification, 100 MB after a snapshot/delta root start tag)",
+            "read bound checked: pulled <= L0 + limit + max(chunk, 64 KiB) (one buffer), limit = the constant in force at the hostile position (1 MB root/notification, 100 MB after a snapshot/delta root start tag)",
             "an endless list of individually small valid sibling elements is not a hostile kind: it has no offending element and the statement sets no bound for it; an endless run of short comments IS treated as hostile (comments are not elements, so nothing may re-arm the per-element counter)",
             "deliberate strengthening: a truncated library-written document must never parse as a *different* value (a proper prefix of such a document is never well-formed XML, so only a parser that gives up well-formedness could do that)",
             "short-writing sinks are only used for documents without base64 object data: base64::EncoderWriter legitimately returns Ok(0) while draining, which std's write_all reports as WriteZero (a robustness gap outside the statement, documented in DESIGN.md)",
